@@ -54,6 +54,9 @@ pub fn canon(n: &SyntaxNode, parent: Option<K>, sort_imports: bool) -> Option<C>
         _ => {}
     }
     if n.children().len() == 0 {
+        if matches!(k, K::Markup | K::Math | K::Code) {
+            return Some(C::Inner(k, vec![]));
+        }
         return Some(C::Leaf(k, n.text().to_string()));
     }
     if k == K::Parenthesized {
@@ -107,10 +110,9 @@ pub fn canon(n: &SyntaxNode, parent: Option<K>, sort_imports: bool) -> Option<C>
         }
     }
     if k == K::Equation {
-        let block = kids.len() >= 2 && matches!(kids.get(1), Some(C::Ws)) && matches!(kids.get(kids.len() - 2), Some(C::Ws));
+        let block = n.cast::<ast::Equation>().map(|e| e.block()).unwrap_or(false);
         kids.retain(|c| !matches!(c, C::Ws));
-        let has_math = kids.iter().any(|c| matches!(c, C::Inner(K::Math, m) if !m.is_empty()));
-        kids.insert(0, C::Leaf(K::Space, if block && has_math { "block".into() } else { "inline".into() }));
+        kids.insert(0, C::Leaf(K::Space, if block { "block".into() } else { "inline".into() }));
     }
     if matches!(k, K::Array | K::Dict | K::Args | K::Params | K::Destructuring) {
         kids.retain(|c| !matches!(c, C::Leaf(K::LeftParen, _) | C::Leaf(K::RightParen, _)));
@@ -637,12 +639,25 @@ pub fn exempt_lines(text: &str) -> Vec<bool> {
             if is_comment(ck) {
                 if c.text().contains("@typstyle off") {
                     disable_next = true;
+                    // the directive's own line up to the disabled node is copied too
+                    let l = line_of(*off);
+                    if l < ex.len() {
+                        ex[l] = true;
+                    }
                 }
                 go(c, off, under, ex, line_of);
                 continue;
             }
-            if disable_next && !matches!(ck, K::Space | K::Hash) {
+            if disable_next && matches!(ck, K::Space | K::Hash) {
+                go(c, off, true, ex, line_of);
+                continue;
+            }
+            if disable_next {
                 disable_next = false;
+                let a = line_of(*off);
+                if a < ex.len() {
+                    ex[a] = true;
+                }
                 go(c, off, true, ex, line_of);
                 continue;
             }
@@ -700,24 +715,21 @@ pub struct Import {
     pub has_comment: bool,
 }
 fn squeeze(n: &SyntaxNode) -> String {
-    // item text without trivia
-    let mut s = String::new();
-    fn go(n: &SyntaxNode, s: &mut String) {
+    // item as its non-trivia tokens
+    let mut toks: Vec<String> = vec![];
+    fn go(n: &SyntaxNode, toks: &mut Vec<String>) {
         if is_comment(n.kind()) || n.kind() == K::Space {
-            if n.kind() == K::Space {
-                s.push(' ');
-            }
             return;
         }
         if n.children().len() == 0 {
-            s.push_str(n.text());
+            toks.push(n.text().to_string());
         }
         for c in n.children() {
-            go(c, s);
+            go(c, toks);
         }
     }
-    go(n, &mut s);
-    s.split_whitespace().collect::<Vec<_>>().join(" ")
+    go(n, &mut toks);
+    toks.join(" ")
 }
 fn walk_imports(n: &SyntaxNode, acc: &mut Vec<Import>) {
     if n.kind() == K::ModuleImport {
@@ -808,6 +820,10 @@ fn non_import_tokens(text: &str) -> Vec<String> {
 
 /// `out_off` / `out_on`: outputs of the same source with reordering off / on.
 pub fn check_c19(src: &str, out_off: &str, out_on: &str) -> Option<String> {
+    if src.contains("@typstyle off") {
+        // the escape hatch (C07) takes precedence over reordering
+        return None;
+    }
     let s = imports(src);
     let off = imports(out_off);
     let on = imports(out_on);
